@@ -13,17 +13,25 @@ open Xeh Xeh.Compile
 structure PState where
   dict : List (String × Entry)
   heapLen : Nat
+  /-- address of the first statement of the block being parsed -/
+  pc : Nat := 0
+  /-- locals of the definition being parsed (declaration order); `none` outside a definition -/
+  locals : Option (List String) := none
+  /-- interpreted words defined so far: (entry address, body, token of `;`) -/
+  funs : List (Nat × Stmt × Nat) := []
 deriving Repr
+
+def accSize (acc : List Stmt) : Nat := (acc.map size).sum
 
 /-- why a block ended -/
 inductive Term where
-  | eof | thenT | elseT | untilT | whileT | repeatT | loopT | endofT | endcaseT | rbrack | rbrace | rtags
+  | eof | thenT | elseT | untilT | whileT | repeatT | loopT | endofT | endcaseT | rbrack | rbrace | rtags | semiT
 deriving DecidableEq, Repr
 
 def termOf : String → Option Term
   | "then" => some .thenT | "else" => some .elseT | "until" => some .untilT | "while" => some .whileT
   | "repeat" => some .repeatT | "loop" => some .loopT | "endof" => some .endofT | "endcase" => some .endcaseT
-  | "]" => some .rbrack | "}" => some .rbrace | "^}" => some .rtags
+  | "]" => some .rbrack | "}" => some .rbrace | "^}" => some .rtags | ";" => some .semiT
   | _ => none
 
 /-- does a statement contain a `break` that is not bound by a loop inside it -/
@@ -38,6 +46,7 @@ def freeBrk : Stmt → Bool
   | .brk _ => true
   | .caseS a => freeBrk a
   | .arm _ _ b => freeBrk b
+  | .defn _ _ _ | .call _ _ _ => false
 
 /-- does the spine of a statement contain an `arm` that is not inside a nested `caseS` -/
 def freeArm : Stmt → Bool
@@ -66,11 +75,17 @@ def parseBlock : Nat → List Tok → Nat → PState → Bool → List Stmt → 
   | f + 1, .lit c :: rest, idx, st, top, acc =>
     parseBlock f rest (idx + 1) st top (.op idx (loadValueOp c) :: acc)
   | f + 1, .word w :: rest, idx, st, top, acc =>
+    let pc0 := st.pc
+    let cur := st.pc + accSize acc
+    match (st.locals.bind fun ls => CState.rposition w ls) with
+    | some i => parseBlock f rest (idx + 1) st top (.op idx (.loadLocal i) :: acc)
+    | none =>
     match st.dict.lookup w with
     | none => none
     | some (.const c) => parseBlock f rest (idx + 1) st top (.op idx (loadValueOp c) :: acc)
     | some (.var a) => parseBlock f rest (idx + 1) st top (.op idx (.load a) :: acc)
-    | some (.interp _ _) => none
+    | some (.interp true _) => none
+    | some (.interp false addr) => parseBlock f rest (idx + 1) st top (.call idx addr (cur + 1) :: acc)
     | some (.native false n) => parseBlock f rest (idx + 1) st top (.op idx (.native n) :: acc)
     | some (.native true n) =>
       match termOf n with
@@ -78,60 +93,60 @@ def parseBlock : Nat → List Tok → Nat → PState → Bool → List Stmt → 
       | none =>
         match n with
         | "if" =>
-          match parseBlock f rest (idx + 1) st false [] with
-          | some ⟨a, .thenT, _, rest, nx, st⟩ => parseBlock f rest nx st top (.ifThen idx a :: acc)
+          match parseBlock f rest (idx + 1) { st with pc := cur + 1 } false [] with
+          | some ⟨a, .thenT, _, rest, nx, st⟩ => parseBlock f rest nx { st with pc := pc0 } top (.ifThen idx a :: acc)
           | some ⟨a, .elseT, te, rest, nx, st⟩ =>
-            match parseBlock f rest nx st false [] with
-            | some ⟨b, .thenT, _, rest, nx, st⟩ => parseBlock f rest nx st top (.ifElse idx te a b :: acc)
+            match parseBlock f rest nx { st with pc := cur + 1 + size a + 1 } false [] with
+            | some ⟨b, .thenT, _, rest, nx, st⟩ => parseBlock f rest nx { st with pc := pc0 } top (.ifElse idx te a b :: acc)
             | _ => none
           | _ => none
         | "begin" =>
-          match parseBlock f rest (idx + 1) st false [] with
+          match parseBlock f rest (idx + 1) { st with pc := cur } false [] with
           | some ⟨a, .untilT, tu, rest, nx, st⟩ =>
-            if freeBrk a then none else parseBlock f rest nx st top (.untilLoop tu a :: acc)
-          | some ⟨a, .repeatT, tr, rest, nx, st⟩ => parseBlock f rest nx st top (.repeatLoop tr a :: acc)
+            if freeBrk a then none else parseBlock f rest nx { st with pc := pc0 } top (.untilLoop tu a :: acc)
+          | some ⟨a, .repeatT, tr, rest, nx, st⟩ => parseBlock f rest nx { st with pc := pc0 } top (.repeatLoop tr a :: acc)
           | some ⟨c, .whileT, tw, rest, nx, st⟩ =>
             if freeBrk c then none else
-            match parseBlock f rest nx st false [] with
-            | some ⟨a, .repeatT, tr, rest, nx, st⟩ => parseBlock f rest nx st top (.whileLoop tw tr c a :: acc)
+            match parseBlock f rest nx { st with pc := cur + size c + 1 } false [] with
+            | some ⟨a, .repeatT, tr, rest, nx, st⟩ => parseBlock f rest nx { st with pc := pc0 } top (.whileLoop tw tr c a :: acc)
             | _ => none
           | _ => none
         | "do" =>
-          match parseBlock f rest (idx + 1) st false [] with
-          | some ⟨a, .loopT, tl, rest, nx, st⟩ => parseBlock f rest nx st top (.doLoop idx tl a :: acc)
+          match parseBlock f rest (idx + 1) { st with pc := cur + 1 } false [] with
+          | some ⟨a, .loopT, tl, rest, nx, st⟩ => parseBlock f rest nx { st with pc := pc0 } top (.doLoop idx tl a :: acc)
           | _ => none
         | "foreach" =>
-          match parseBlock f rest (idx + 1) st false [] with
+          match parseBlock f rest (idx + 1) { st with pc := cur + 3 } false [] with
           | some ⟨a, .loopT, tl, rest, nx, st⟩ =>
-            parseBlock f rest nx st top
+            parseBlock f rest nx { st with pc := pc0 } top
               (.doLoop idx tl (.seq (.op idx (.native "<foreach-next>")) a) :: .op idx (.native "<foreach-init>") :: acc)
           | _ => none
         | "case" =>
-          match parseBlock f rest (idx + 1) st false [] with
-          | some ⟨a, .endcaseT, _, rest, nx, st⟩ => parseBlock f rest nx st top (.caseS a :: acc)
+          match parseBlock f rest (idx + 1) { st with pc := cur } false [] with
+          | some ⟨a, .endcaseT, _, rest, nx, st⟩ => parseBlock f rest nx { st with pc := pc0 } top (.caseS a :: acc)
           | _ => none
         | "of" =>
-          match parseBlock f rest (idx + 1) st false [] with
+          match parseBlock f rest (idx + 1) { st with pc := cur + 1 } false [] with
           | some ⟨a, .endofT, te, rest, nx, st⟩ =>
-            if freeArm a then none else parseBlock f rest nx st top (.arm idx te a :: acc)
+            if freeArm a then none else parseBlock f rest nx { st with pc := pc0 } top (.arm idx te a :: acc)
           | _ => none
         | "[" =>
-          match parseBlock f rest (idx + 1) st false [] with
+          match parseBlock f rest (idx + 1) { st with pc := cur + 1 } false [] with
           | some ⟨a, .rbrack, tc, rest, nx, st⟩ =>
             if freeBrk a || freeArm a then none else
-            parseBlock f rest nx st top (.op tc (.native "<vec-end>") :: a :: .op idx (.native "<vec-begin>") :: acc)
+            parseBlock f rest nx { st with pc := pc0 } top (.op tc (.native "<vec-end>") :: a :: .op idx (.native "<vec-begin>") :: acc)
           | _ => none
         | "{" =>
-          match parseBlock f rest (idx + 1) st false [] with
+          match parseBlock f rest (idx + 1) { st with pc := cur + 1 } false [] with
           | some ⟨a, .rbrace, tc, rest, nx, st⟩ =>
             if freeBrk a || freeArm a then none else
-            parseBlock f rest nx st top (.op tc (.native "<map-end>") :: a :: .op idx (.native "<map-begin>") :: acc)
+            parseBlock f rest nx { st with pc := pc0 } top (.op tc (.native "<map-end>") :: a :: .op idx (.native "<map-begin>") :: acc)
           | _ => none
         | "^{" =>
-          match parseBlock f rest (idx + 1) st false [] with
+          match parseBlock f rest (idx + 1) { st with pc := cur + 1 } false [] with
           | some ⟨a, .rtags, tc, rest, nx, st⟩ =>
             if freeBrk a || freeArm a then none else
-            parseBlock f rest nx st top (.op tc (.native "<tags-end>") :: a :: .op idx (.native "<vec-begin>") :: acc)
+            parseBlock f rest nx { st with pc := pc0 } top (.op tc (.native "<tags-end>") :: a :: .op idx (.native "<vec-begin>") :: acc)
           | _ => none
         | "break" => parseBlock f rest (idx + 1) st top (.brk idx :: acc)
         | "nil" => parseBlock f rest (idx + 1) st top (.op idx .loadNil :: acc)
@@ -142,12 +157,30 @@ def parseBlock : Nat → List Tok → Nat → PState → Bool → List Stmt → 
         | "fmt/prefix" => parseBlock f rest (idx + 1) st top (.op idx (.native "<fmt-prefix>") :: acc)
         | "fmt/tags" => parseBlock f rest (idx + 1) st top (.op idx (.native "<fmt-tags>") :: acc)
         | "fmt/upcase" => parseBlock f rest (idx + 1) st top (.op idx (.native "<fmt-upcase>") :: acc)
+        | ":" =>
+          match rest with
+          | .word name :: rest' =>
+            -- no definition inside a definition; the name is bound before the body is read (recursion)
+            if st.locals.isSome then none else
+            let stB : PState := { st with pc := cur + 1, locals := some ([] : List String), dict := (name, Entry.interp false (cur + 1)) :: st.dict }
+            match parseBlock f rest' (idx + 2) stB false [] with
+            | some ⟨body, .semiT, ts, rest, nx, st⟩ =>
+              if freeBrk body || freeArm body then none else
+              parseBlock f rest nx { st with pc := pc0, locals := none, funs := (cur + 1, body, ts) :: st.funs } top
+                (.defn (idx + 1) ts body :: acc)
+            | _ => none
+          | _ => none
+        | "local" =>
+          match rest, st.locals with
+          | .word name :: rest', some ls =>
+            parseBlock f rest' (idx + 2) { st with locals := some (ls ++ [name]) } top (.op (idx + 1) (.initLocal ls.length) :: acc)
+          | _, _ => none
         | "var" =>
           match rest with
           | .word name :: rest' =>
             if top then
               let a := st.heapLen
-              parseBlock f rest' (idx + 2) { dict := (name, .var a) :: st.dict, heapLen := a + 1 } top
+              parseBlock f rest' (idx + 2) { st with dict := (name, .var a) :: st.dict, heapLen := a + 1 } top
                 (.op (idx + 1) (.store a) :: acc)
             else none
           | _ => none
@@ -168,7 +201,7 @@ def parseBlock : Nat → List Tok → Nat → PState → Bool → List Stmt → 
 /-- a whole source: the block must end at the end of input and be well-formed -/
 def parseS (toks : List Tok) (st : PState) : Option (Stmt × PState) :=
   match parseBlock (2 * toks.length + 2) toks 0 st true [] with
-  | some ⟨s, .eof, _, _, _, st'⟩ => if WFS s false false then some (s, st') else none
+  | some ⟨s, .eof, _, _, _, st'⟩ => if WFS s false false && placed (tabOf s) s 0 then some (s, st') else none
   | _ => none
 
 end Xeh.Structured
